@@ -68,7 +68,12 @@ func verifControlNewDep(name string, ref NodeOutputReference) StructDependency {
 // SAVE-1 controls (package generator)
 const genControlSrc = `package generator
 
-import "os"
+import (
+	"os"
+
+	"github.com/EliCDavis/jbtf"
+	"github.com/EliCDavis/polyform/generator/schema"
+)
 
 // must fire: no truncation
 func (gs *GraphSaver) verifControlSaveBad() {
@@ -80,6 +85,37 @@ func (gs *GraphSaver) verifControlSaveBad() {
 	if _, err := f.Write(gs.app.Schema()); err != nil {
 		panic(err)
 	}
+}
+
+// SAVE-2 must fire: skipped when a counter did not move
+func (gs *GraphSaver) verifControlSaveSkip(last *uint32) {
+	v := gs.app.graphInstance.ModelVersion()
+	if v == *last {
+		return
+	}
+	*last = v
+	if err := os.WriteFile(gs.savePath, gs.app.Schema(), 0666); err != nil {
+		panic(err)
+	}
+}
+
+var verifControlEncoder = &jbtf.Encoder{}
+
+// SAVE-3 must fire: long-lived encoder
+func (a *App) verifControlSchemaStale() []byte {
+	g := schema.App{}
+	a.graphInstance.EncodeToAppSchema(&g, verifControlEncoder)
+	data, _ := verifControlEncoder.ToPgtf(g)
+	return data
+}
+
+// SAVE-3 must stay silent
+func (a *App) verifControlSchemaFresh() []byte {
+	var g schema.App
+	var enc jbtf.Encoder
+	a.graphInstance.EncodeToAppSchema(&g, &enc)
+	data, _ := enc.ToPgtf(g)
+	return data
 }
 
 // must stay silent: fresh side file renamed onto the save path
@@ -105,6 +141,37 @@ func (gs *GraphSaver) verifControlSaveGood() {
 
 // PERSIST-7 controls (package graph, appended to the graph control file)
 const graphControlSrc2 = `
+// PERSIST-8 must fire: index compared as text
+func (i *Instance) verifControlSortBad(node nodes.Node) schema.AppNodeInstance {
+	var out schema.AppNodeInstance
+	for _, d := range node.Dependencies() {
+		out.Dependencies = append(out.Dependencies, schema.NodeDependency{Name: d.Name()})
+	}
+	sort.Slice(out.Dependencies, func(a, b int) bool { return out.Dependencies[a].Name < out.Dependencies[b].Name })
+	return out
+}
+
+// PERSIST-8 must stay silent: stable, keyed on the field name only
+func (i *Instance) verifControlSortGood(node nodes.Node) schema.AppNodeInstance {
+	var out schema.AppNodeInstance
+	for _, d := range node.Dependencies() {
+		out.Dependencies = append(out.Dependencies, schema.NodeDependency{Name: d.Name()})
+	}
+	sort.SliceStable(out.Dependencies, func(a, b int) bool {
+		return verifControlField(out.Dependencies[a].Name) < verifControlField(out.Dependencies[b].Name)
+	})
+	return out
+}
+
+func verifControlField(name string) string {
+	for k := 0; k < len(name); k++ {
+		if name[k] == '.' {
+			return name[:k]
+		}
+	}
+	return name[:len(name)]
+}
+
 // must fire: id removed before the producers are compared with it
 func (i *Instance) verifControlDeleteBad(nodeId string) {
 	for n, id := range i.nodeIDs {
@@ -136,6 +203,7 @@ const paramControlSrc = `package parameter
 
 import (
 	"encoding/json"
+	"io"
 
 	"github.com/EliCDavis/jbtf"
 )
@@ -175,6 +243,52 @@ func (p *verifControlBadParam) FromJSON(decoder jbtf.Decoder, body []byte) (err 
 		p.Default = gn.Default.Data
 	}
 	return
+}
+
+// PERSIST-9: one payload type reads to EOF, the other is length-prefixed
+type verifControlPayloadEOF struct{ Data []byte }
+
+func (p *verifControlPayloadEOF) Deserialize(r io.Reader) (err error) {
+	p.Data, err = io.ReadAll(r)
+	return err
+}
+func (p verifControlPayloadEOF) Serialize(w io.Writer) error { _, err := w.Write(p.Data); return err }
+
+type verifControlPayloadFixed struct{ Data [16]byte }
+
+func (p *verifControlPayloadFixed) Deserialize(r io.Reader) error {
+	_, err := io.ReadFull(r, p.Data[:])
+	return err
+}
+func (p verifControlPayloadFixed) Serialize(w io.Writer) error { _, err := w.Write(p.Data[:]); return err }
+
+type verifControlPayloadSchema struct {
+	Loose *verifControlPayloadEOF   ` + "`json:\"loose\"`" + `
+	Fixed *verifControlPayloadFixed ` + "`json:\"fixed\"`" + `
+}
+
+type verifControlPayloadParam struct {
+	Loose []byte
+	Fixed [16]byte
+}
+
+func (p *verifControlPayloadParam) ToJSON(encoder *jbtf.Encoder) ([]byte, error) {
+	s := verifControlPayloadSchema{Loose: &verifControlPayloadEOF{Data: p.Loose}, Fixed: &verifControlPayloadFixed{Data: p.Fixed}}
+	return encoder.Marshal(s)
+}
+
+func (p *verifControlPayloadParam) FromJSON(decoder jbtf.Decoder, body []byte) error {
+	s, err := jbtf.Decode[verifControlPayloadSchema](decoder, body)
+	if err != nil {
+		return err
+	}
+	if s.Loose != nil {
+		p.Loose = s.Loose.Data
+	}
+	if s.Fixed != nil {
+		p.Fixed = s.Fixed.Data
+	}
+	return nil
 }
 
 // must stay silent: field-by-field construction, guard on the receiver, setter on the way back
@@ -441,7 +555,18 @@ func (k *checker) finishControls() {
 		if sf := c.P.Func("generator", "App.Schema"); sf != nil {
 			k.save1On(f, sf, "control.SaveBad")
 			k.save1On(c.P.Func("generator", "GraphSaver.verifControlSaveGood"), sf, "control.SaveGood")
+			if f2 := c.P.Func("generator", "GraphSaver.verifControlSaveSkip"); f2 != nil {
+				k.save1On(f2, sf, "control.SaveSkip")
+			}
 		}
+	}
+	if f := c.P.Func("generator", "App.verifControlSchemaStale"); f != nil {
+		k.save3On(f, "control.SchemaStale")
+		k.save3On(c.P.Func("generator", "App.verifControlSchemaFresh"), "control.SchemaGoodFresh")
+	}
+	if f := c.P.Func("generator/graph", "Instance.verifControlSortBad"); f != nil {
+		k.persist8Sorts(f, "control.SortBad")
+		k.persist8Sorts(c.P.Func("generator/graph", "Instance.verifControlSortGood"), "control.SortGood")
 	}
 	has := func(list []string, sub string) bool {
 		for _, s := range list {
@@ -475,6 +600,10 @@ func (k *checker) finishControls() {
 		{"PERSIST-6", "control.DepsBad#FieldValuesOfType"},
 		{"PERSIST-7", "control.DeleteBad#id-read-before-delete"},
 		{"SAVE-1", "control.SaveBad#replace"},
+		{"SAVE-2", "control.SaveSkip#always-writes"},
+		{"SAVE-3", "control.SchemaStale#fresh-encoder"},
+		{"PERSIST-8", "control.SortBad#sort"},
+		{"PERSIST-9", "verifControlPayloadParam#payload.Loose"},
 	}
 	for _, w := range bad {
 		v := ob.Holds
@@ -483,7 +612,16 @@ func (k *checker) finishControls() {
 		}
 		c.R.Control(w.rule, "control:bad:"+w.sub, "zz_verif_control_c12.go", v, ob.Violation, "seeded defect must be reported")
 	}
-	for _, rule := range []string{"PERSIST-1", "PERSIST-2", "PERSIST-3", "PERSIST-4", "PERSIST-6", "PERSIST-7", "SAVE-1"} {
+	{
+		v := ob.Violation
+		for _, h := range k.ctl.held["PERSIST-9"] {
+			if strings.Contains(h, "verifControlPayloadParam#payload.Fixed") {
+				v = ob.Holds
+			}
+		}
+		c.R.Control("PERSIST-9", "control:good", "zz_verif_control_c12.go", v, ob.Holds, "a length-delimited payload type must hold")
+	}
+	for _, rule := range []string{"PERSIST-1", "PERSIST-2", "PERSIST-3", "PERSIST-4", "PERSIST-6", "PERSIST-7", "SAVE-1", "SAVE-2", "SAVE-3", "PERSIST-8"} {
 		v := ob.Holds
 		var msgs []string
 		for _, f := range k.ctl.fired[rule] {
